@@ -180,6 +180,10 @@ def unsplit_netloc(username, password, hostname, port):
     else:
         auth = None
 
+    # NOTE: the hostname of an IP literal is given without its brackets
+    if hostname and ":" in hostname and not hostname.startswith("["):
+        hostname = "[" + hostname + "]"
+
     if auth:
         hostname = auth + "@" + hostname
     if port is not None:
